@@ -47,6 +47,10 @@ Inc(c) ==
 NewNick(n) == IF n = "" THEN "_" ELSE SubSeq(n, 1, Len(n) - 1) \o Inc(Ch(n, Len(n)))
 
 Privs == {"o", "v"}
+FlagSet == {"m", "s"}                        \* boolean channel modes the model server changes
+Flags0(c) == IF c = "#x" THEN {"n", "t"} ELSE {"s"}   \* modes of a channel when the client joins it
+FlagStr(S) == JoinWith(SetToSortSeq(S, LAMBDA a, b : Index("imnpstz", a) < Index("imnpstz", b)), "")
+ListModes == {"b", "e", "I"}
 
 VARIABLES
   phase,    \* "pre" (registering) | "up"
@@ -60,12 +64,13 @@ VARIABLES
   topic, ktopic,   \* [chan -> topic] truth / revealed
   key, kkey,       \* [chan -> key]   truth / revealed
   lim, klim,       \* [chan -> user limit (0: none)] truth / revealed
+  flags, kflags,   \* [chan -> set of boolean channel modes] truth / what the tracker can know (MODE changes seen, 324 reply)
   pendMode, pendWho,  \* requests of the tracker not yet answered by the server
   pendNick, \* a NICK request of the client not yet answered ("" none)
   steps,
   lastOp
 
-state == <<phase, tried, snick, nick, mem, kn, uh, jn, topic, ktopic, key, kkey, lim, klim, pendMode, pendWho, pendNick, steps>>
+state == <<phase, tried, snick, nick, mem, kn, uh, jn, topic, ktopic, key, kkey, lim, klim, flags, kflags, pendMode, pendWho, pendNick, steps>>
 vars == <<state, lastOp>>
 
 On == DOMAIN mem
@@ -91,7 +96,7 @@ Step == steps < MaxSteps /\ steps' = steps + 1
 
 Init ==
   /\ phase = "pre" /\ tried = Me0 /\ snick = "" /\ nick \in [Users -> NickPool] /\ (\A u, v \in Users : u # v => nick[u] # nick[v])
-  /\ mem = <<>> /\ kn = <<>> /\ uh = {} /\ jn = {} /\ topic = <<>> /\ ktopic = <<>> /\ key = <<>> /\ kkey = <<>> /\ lim = <<>> /\ klim = <<>>
+  /\ mem = <<>> /\ kn = <<>> /\ uh = {} /\ jn = {} /\ topic = <<>> /\ ktopic = <<>> /\ key = <<>> /\ kkey = <<>> /\ lim = <<>> /\ klim = <<>> /\ flags = <<>> /\ kflags = <<>>
   /\ pendMode = {} /\ pendWho = {} /\ pendNick = "" /\ steps = 0
   /\ lastOp = [ev |-> "connect", lines |-> <<>>, expect |-> <<"NICK " \o Me0>>]
 
@@ -103,21 +108,21 @@ Collide ==
   /\ phase = "pre" /\ Step
   /\ tried' = NewNick(tried)
   /\ Op("collide", <<Srv \o " 433 * " \o tried \o " :Nickname is already in use.">>, <<"NICK " \o NewNick(tried)>>)
-  /\ UNCHANGED <<phase, snick, nick, mem, kn, uh, jn, topic, ktopic, key, kkey, lim, klim, pendMode, pendWho, pendNick>>
+  /\ UNCHANGED <<phase, snick, nick, mem, kn, uh, jn, topic, ktopic, key, kkey, lim, klim, flags, kflags, pendMode, pendWho, pendNick>>
 
 \* 001: the server confirms the nick asked for, or imposes another one
 Welcome(n) ==
   /\ phase = "pre" /\ Step /\ n \notin {nick[u] : u \in Users}
   /\ phase' = "up" /\ snick' = n /\ tried' = n
   /\ Op("welcome", <<Srv \o " 001 " \o n \o " :Welcome to the Internet Relay Network " \o n \o "!" \o MyIdent \o "@" \o MyHost>>, <<>>)
-  /\ UNCHANGED <<nick, mem, kn, uh, jn, topic, ktopic, key, kkey, lim, klim, pendMode, pendWho, pendNick>>
+  /\ UNCHANGED <<nick, mem, kn, uh, jn, topic, ktopic, key, kkey, lim, klim, flags, kflags, pendMode, pendWho, pendNick>>
 
 \* the client asks for another nick (the harness calls Nick(n)) ...
 ClientNick(n) ==
   /\ phase = "up" /\ pendNick = "" /\ Step /\ n # snick
   /\ pendNick' = n
   /\ Op("clientnick", <<>>, <<"NICK " \o n>>)
-  /\ UNCHANGED <<phase, tried, snick, nick, mem, kn, uh, jn, topic, ktopic, key, kkey, lim, klim, pendMode, pendWho>>
+  /\ UNCHANGED <<phase, tried, snick, nick, mem, kn, uh, jn, topic, ktopic, key, kkey, lim, klim, flags, kflags, pendMode, pendWho>>
 \* ... the server confirms it ...
 MyRename(n) ==
   /\ mem' = [c \in On |-> IF snick \in NicksOf(c) THEN Ren(mem[c], snick, n) ELSE mem[c]]
@@ -127,20 +132,20 @@ NickConfirm ==
   /\ phase = "up" /\ pendNick # "" /\ pendNick \notin UsedNicks /\ Step
   /\ MyRename(pendNick) /\ pendNick' = ""
   /\ Op("nickconfirm", <<Src(snick) \o " NICK :" \o pendNick>>, <<>>)
-  /\ UNCHANGED <<phase, tried, nick, uh, jn, topic, ktopic, key, kkey, lim, klim, pendMode, pendWho>>
+  /\ UNCHANGED <<phase, tried, nick, uh, jn, topic, ktopic, key, kkey, lim, klim, flags, kflags, pendMode, pendWho>>
 \* ... or refuses it: the client asks for NewNick(refused) next
 NickRefuse ==
   /\ phase = "up" /\ pendNick # "" /\ Step /\ NewNick(pendNick) # snick
   /\ pendNick' = NewNick(pendNick)
   /\ Op("nickrefuse", <<Srv \o " 433 " \o snick \o " " \o pendNick \o " :Nickname is already in use.">>, <<"NICK " \o NewNick(pendNick)>>)
-  /\ UNCHANGED <<phase, tried, snick, nick, mem, kn, uh, jn, topic, ktopic, key, kkey, lim, klim, pendMode, pendWho>>
+  /\ UNCHANGED <<phase, tried, snick, nick, mem, kn, uh, jn, topic, ktopic, key, kkey, lim, klim, flags, kflags, pendMode, pendWho>>
 \* the server changes the client's nick on its own
 NickForce(n) ==
   /\ phase = "up" /\ n \notin UsedNicks /\ Step
   /\ n # pendNick     \* (a server does not impose the very nick it is about to refuse)
   /\ MyRename(n)
   /\ Op("nickforce", <<Src(snick) \o " NICK " \o n>>, <<>>)
-  /\ UNCHANGED <<phase, tried, nick, uh, jn, topic, ktopic, key, kkey, lim, klim, pendMode, pendWho, pendNick>>
+  /\ UNCHANGED <<phase, tried, nick, uh, jn, topic, ktopic, key, kkey, lim, klim, flags, kflags, pendMode, pendWho, pendNick>>
 
 -----------------------------------------------------------------------------
 (* Channels (C13) *)
@@ -156,6 +161,7 @@ MeJoin(c, others, t, k) ==
         /\ topic' = Put(topic, c, t) /\ ktopic' = Put(ktopic, c, t)
         /\ key' = Put(key, c, k) /\ kkey' = Put(kkey, c, "")
         /\ lim' = Put(lim, c, IF c = "#x" THEN 7 ELSE 0) /\ klim' = Put(klim, c, 0)
+        /\ flags' = Put(flags, c, Flags0(c)) /\ kflags' = Put(kflags, c, {})
         /\ pendMode' = pendMode \cup {c} /\ pendWho' = pendWho \cup {c}
         /\ Op("mejoin",
               <<Src(snick) \o " JOIN " \o c>>
@@ -168,9 +174,10 @@ MeJoin(c, others, t, k) ==
 Reply324(c) ==
   /\ c \in pendMode /\ c \in On /\ Step
   /\ pendMode' = pendMode \ {c} /\ kkey' = [kkey EXCEPT ![c] = key[c]] /\ klim' = [klim EXCEPT ![c] = lim[c]]
-  /\ Op("reply324", <<Srv \o " 324 " \o snick \o " " \o c \o " +" \o (IF lim[c] > 0 THEN "l" ELSE "") \o (IF key[c] # "" THEN "k" ELSE "")
+  /\ kflags' = [kflags EXCEPT ![c] = @ \cup flags[c]]
+  /\ Op("reply324", <<Srv \o " 324 " \o snick \o " " \o c \o " +" \o FlagStr(flags[c]) \o (IF lim[c] > 0 THEN "l" ELSE "") \o (IF key[c] # "" THEN "k" ELSE "")
                       \o (IF lim[c] > 0 THEN " " \o ToString(lim[c]) ELSE "") \o (IF key[c] # "" THEN " " \o key[c] ELSE "")>>, <<>>)
-  /\ UNCHANGED <<phase, tried, snick, nick, mem, kn, uh, jn, topic, ktopic, key, lim, pendWho, pendNick>>
+  /\ UNCHANGED <<phase, tried, snick, nick, mem, kn, uh, jn, topic, ktopic, key, lim, flags, pendWho, pendNick>>
 
 \* ... and WHO c with one 352 per member and a 315: user@host of every member is revealed
 ReplyWho(c) ==
@@ -182,7 +189,7 @@ ReplyWho(c) ==
                       THEN Srv \o " 352 " \o snick \o " " \o c \o " " \o MyIdent \o " " \o MyHost \o " irc.example.net " \o n \o " H :0 Real Name"
                       ELSE Srv \o " 352 " \o snick \o " " \o c \o " " \o Ident(UserOf(n)) \o " " \o Host(UserOf(n)) \o " irc.example.net " \o n \o " H" \o Prefix(mem[c][n]) \o " :0 " \o UserOf(n)
      IN Op("replywho", [i \in 1..Len(ms) |-> Line(ms[i])] \o <<Srv \o " 315 " \o snick \o " " \o c \o " :End of /WHO list.">>, <<>>)
-  /\ UNCHANGED <<phase, tried, snick, nick, mem, kn, topic, ktopic, key, kkey, lim, klim, pendMode, pendNick>>
+  /\ UNCHANGED <<phase, tried, snick, nick, mem, kn, topic, ktopic, key, kkey, lim, klim, flags, kflags, pendMode, pendNick>>
 
 \* another user joins a channel the client is on (the tracker asks WHO nick when it is new)
 OtherJoin(u, c) ==
@@ -190,7 +197,7 @@ OtherJoin(u, c) ==
   /\ mem' = [mem EXCEPT ![c] = Put(@, nick[u], {})] /\ kn' = [kn EXCEPT ![c] = Put(@, nick[u], {})]
   /\ jn' = jn \cup {nick[u]} /\ uh' = uh
   /\ Op("otherjoin", <<Src(nick[u]) \o " JOIN :" \o c>>, IF Shares(nick[u]) THEN <<>> ELSE <<"WHO " \o nick[u]>>)
-  /\ UNCHANGED <<phase, tried, snick, nick, topic, ktopic, key, kkey, lim, klim, pendMode, pendWho, pendNick>>
+  /\ UNCHANGED <<phase, tried, snick, nick, topic, ktopic, key, kkey, lim, klim, flags, kflags, pendMode, pendWho, pendNick>>
 
 Forget(S, n, m1) == IF \E c \in DOMAIN m1 : n \in DOMAIN m1[c] THEN S ELSE S \ {n}
 Leave(n, c) ==
@@ -201,18 +208,18 @@ Leave(n, c) ==
 OtherPart(u, c) ==
   /\ c \in On /\ nick[u] \in NicksOf(c) /\ Step /\ Leave(nick[u], c)
   /\ Op("otherpart", <<Src(nick[u]) \o " PART " \o c \o " :bye">>, <<>>)
-  /\ UNCHANGED <<phase, tried, snick, nick, topic, ktopic, key, kkey, lim, klim, pendMode, pendWho, pendNick>>
+  /\ UNCHANGED <<phase, tried, snick, nick, topic, ktopic, key, kkey, lim, klim, flags, kflags, pendMode, pendWho, pendNick>>
 OtherKicked(u, c, by) ==
   /\ c \in On /\ nick[u] \in NicksOf(c) /\ by \in NicksOf(c) /\ Step /\ Leave(nick[u], c)
   /\ Op("otherkicked", <<Src(by) \o " KICK " \o c \o " " \o nick[u] \o " :out">>, <<>>)
-  /\ UNCHANGED <<phase, tried, snick, nick, topic, ktopic, key, kkey, lim, klim, pendMode, pendWho, pendNick>>
+  /\ UNCHANGED <<phase, tried, snick, nick, topic, ktopic, key, kkey, lim, klim, flags, kflags, pendMode, pendWho, pendNick>>
 OtherQuit(u) ==
   /\ Shares(nick[u]) /\ Step
   /\ mem' = [c \in On |-> Restr(mem[c], NicksOf(c) \ {nick[u]})]
   /\ kn' = [c \in On |-> Restr(kn[c], NicksOf(c) \ {nick[u]})]
   /\ uh' = uh \ {nick[u]} /\ jn' = jn \ {nick[u]}
   /\ Op("otherquit", <<Src(nick[u]) \o " QUIT :Quit: gone">>, <<>>)
-  /\ UNCHANGED <<phase, tried, snick, nick, topic, ktopic, key, kkey, lim, klim, pendMode, pendWho, pendNick>>
+  /\ UNCHANGED <<phase, tried, snick, nick, topic, ktopic, key, kkey, lim, klim, flags, kflags, pendMode, pendWho, pendNick>>
 \* a user the client can see changes nick
 OtherNick(u, n) ==
   /\ Shares(nick[u]) /\ n \in NickPool /\ n \notin UsedNicks /\ Step
@@ -222,13 +229,13 @@ OtherNick(u, n) ==
   /\ uh' = IF nick[u] \in uh THEN (uh \ {nick[u]}) \cup {n} ELSE uh
   /\ jn' = IF nick[u] \in jn THEN (jn \ {nick[u]}) \cup {n} ELSE jn
   /\ Op("othernick", <<Src(nick[u]) \o " NICK :" \o n>>, <<>>)
-  /\ UNCHANGED <<phase, tried, snick, topic, ktopic, key, kkey, lim, klim, pendMode, pendWho, pendNick>>
+  /\ UNCHANGED <<phase, tried, snick, topic, ktopic, key, kkey, lim, klim, flags, kflags, pendMode, pendWho, pendNick>>
 \* a user the client cannot see changes nick: nothing is sent
 HiddenNick(u, n) ==
   /\ ~Shares(nick[u]) /\ phase = "up" /\ n \in NickPool /\ n \notin UsedNicks /\ n # pendNick /\ Step
   /\ nick' = [nick EXCEPT ![u] = n]
   /\ Op("hiddennick", <<>>, <<>>)
-  /\ UNCHANGED <<phase, tried, snick, mem, kn, uh, jn, topic, ktopic, key, kkey, lim, klim, pendMode, pendWho, pendNick>>
+  /\ UNCHANGED <<phase, tried, snick, mem, kn, uh, jn, topic, ktopic, key, kkey, lim, klim, flags, kflags, pendMode, pendWho, pendNick>>
 
 \* the client leaves or is kicked: the channel and every user no longer shared are forgotten
 DropChan(c) ==
@@ -237,6 +244,7 @@ DropChan(c) ==
   /\ topic' = Restr(topic, On \ {c}) /\ ktopic' = Restr(ktopic, On \ {c})
   /\ key' = Restr(key, On \ {c}) /\ kkey' = Restr(kkey, On \ {c})
   /\ lim' = Restr(lim, On \ {c}) /\ klim' = Restr(klim, On \ {c})
+  /\ flags' = Restr(flags, On \ {c}) /\ kflags' = Restr(kflags, On \ {c})
   /\ uh' = {n \in uh : \E d \in DOMAIN m1 : n \in DOMAIN m1[d]}
   /\ jn' = {n \in jn : \E d \in DOMAIN m1 : n \in DOMAIN m1[d]}
   /\ pendMode' = pendMode \ {c} /\ pendWho' = pendWho \ {c}
@@ -255,14 +263,14 @@ PrivChange(c, n, sign, p, by) ==
   /\ mem' = [mem EXCEPT ![c][n] = IF sign = "+" THEN @ \cup {p} ELSE @ \ {p}]
   /\ kn' = [kn EXCEPT ![c][n] = IF sign = "+" THEN @ \cup {p} ELSE @ \ {p}]
   /\ Op("privchange", <<Src(by) \o " MODE " \o c \o " " \o sign \o p \o " " \o n>>, <<>>)
-  /\ UNCHANGED <<phase, tried, snick, nick, uh, jn, topic, ktopic, key, kkey, lim, klim, pendMode, pendWho, pendNick>>
+  /\ UNCHANGED <<phase, tried, snick, nick, uh, jn, topic, ktopic, key, kkey, lim, klim, flags, kflags, pendMode, pendWho, pendNick>>
 \* two changes in one MODE line (argument-taking modes in sequence; a key removal comes last)
 DoubleChange(c, n, k, by) ==
   /\ c \in On /\ n \in NicksOf(c) /\ by \in NicksOf(c) /\ Step
   /\ mem' = [mem EXCEPT ![c][n] = @ \cup {"v"}] /\ kn' = [kn EXCEPT ![c][n] = @ \cup {"v"}]
   /\ key' = [key EXCEPT ![c] = k] /\ kkey' = [kkey EXCEPT ![c] = k]
   /\ Op("doublechange", <<Src(by) \o (IF k = "" THEN " MODE " \o c \o " +v-k " \o n ELSE " MODE " \o c \o " +kv " \o k \o " " \o n)>>, <<>>)
-  /\ UNCHANGED <<phase, tried, snick, nick, uh, jn, topic, ktopic, lim, klim, pendMode, pendWho, pendNick>>
+  /\ UNCHANGED <<phase, tried, snick, nick, uh, jn, topic, ktopic, lim, klim, flags, kflags, pendMode, pendWho, pendNick>>
 \* a limit and a privilege in one line (the limit's argument comes first), or the limit removed
 LimitChange(c, n, L, by) ==
   /\ c \in On /\ n \in NicksOf(c) /\ by \in NicksOf(c) /\ Step
@@ -270,12 +278,27 @@ LimitChange(c, n, L, by) ==
   /\ IF L > 0 THEN /\ mem' = [mem EXCEPT ![c][n] = @ \cup {"o"}] /\ kn' = [kn EXCEPT ![c][n] = @ \cup {"o"}]
               ELSE UNCHANGED <<mem, kn>>
   /\ Op("limitchange", <<Src(by) \o (IF L > 0 THEN " MODE " \o c \o " +lo " \o ToString(L) \o " " \o n ELSE " MODE " \o c \o " -l")>>, <<>>)
-  /\ UNCHANGED <<phase, tried, snick, nick, uh, jn, topic, ktopic, key, kkey, pendMode, pendWho, pendNick>>
+  /\ UNCHANGED <<phase, tried, snick, nick, uh, jn, topic, ktopic, key, kkey, flags, kflags, pendMode, pendWho, pendNick>>
 TopicChange(c, t, by) ==
   /\ c \in On /\ by \in NicksOf(c) /\ t # topic[c] /\ Step
   /\ topic' = [topic EXCEPT ![c] = t] /\ ktopic' = [ktopic EXCEPT ![c] = t]
   /\ Op("topicchange", <<Src(by) \o " TOPIC " \o c \o " :" \o t>>, <<>>)
-  /\ UNCHANGED <<phase, tried, snick, nick, mem, kn, uh, jn, key, kkey, lim, klim, pendMode, pendWho, pendNick>>
+  /\ UNCHANGED <<phase, tried, snick, nick, mem, kn, uh, jn, key, kkey, lim, klim, flags, kflags, pendMode, pendWho, pendNick>>
+
+\* boolean channel modes: one, or one set and another cleared in the same line
+FlagChange(c, f, g, by) ==
+  /\ c \in On /\ by \in NicksOf(c) /\ Step /\ f \in FlagSet /\ g \in FlagSet \cup {""} /\ g # f
+  /\ flags' = [flags EXCEPT ![c] = (@ \cup {f}) \ {g}] /\ kflags' = [kflags EXCEPT ![c] = (@ \cup {f}) \ {g}]
+  /\ Op("flagchange", <<Src(by) \o " MODE " \o c \o " +" \o f \o (IF g = "" THEN "" ELSE "-" \o g)>>, <<>>)
+  /\ UNCHANGED <<phase, tried, snick, nick, mem, kn, uh, jn, topic, ktopic, key, kkey, lim, klim, pendMode, pendWho, pendNick>>
+\* a list mode (ban, ban exception, invite exception: they take a mask) and a privilege in one line:
+\* the mask belongs to the list mode, the nick to the privilege.  Lists are not tracked.
+ListChange(c, n, L, sign, by) ==
+  /\ c \in On /\ n \in NicksOf(c) /\ by \in NicksOf(c) /\ Step
+  /\ LET p == IF sign = "+" THEN "o" ELSE "v" IN
+       /\ mem' = [mem EXCEPT ![c][n] = @ \cup {p}] /\ kn' = [kn EXCEPT ![c][n] = @ \cup {p}]
+       /\ Op("listchange", <<Src(by) \o " MODE " \o c \o " " \o sign \o L \o "+" \o p \o " *!*@bad.example.org " \o n>>, <<>>)
+  /\ UNCHANGED <<phase, tried, snick, nick, uh, jn, topic, ktopic, key, kkey, lim, klim, flags, kflags, pendMode, pendWho, pendNick>>
 
 PrivSets == {{}, {"o"}, {"v"}, {"o", "v"}}
 Next ==
@@ -293,6 +316,8 @@ Next ==
   \/ \E c \in Chans, n \in UsedNicks, k \in {"", "k2"} : DoubleChange(c, n, k, snick)
   \/ \E c \in Chans, t \in {"", "new: topic"} : TopicChange(c, t, snick)
   \/ \E c \in Chans, n \in UsedNicks, L \in {0, 12} : LimitChange(c, n, L, snick)
+  \/ \E c \in Chans, f \in FlagSet, g \in FlagSet \cup {""} : FlagChange(c, f, g, snick)
+  \/ \E c \in Chans, n \in UsedNicks, L \in ListModes, sign \in {"+", "-"} : ListChange(c, n, L, sign, snick)
 
 Spec == Init /\ [][Next]_vars
 
@@ -304,13 +329,14 @@ View ==
   [me |-> snick,
    \* user@host: "must" be known after a WHO reply, "may" be known after a JOIN prefix, else unknown
    nicks |-> [n \in Visible |-> <<Ident(UserOf(n)), Host(UserOf(n)), IF n \in uh THEN "must" ELSE IF n \in jn THEN "may" ELSE "none">>],
-   chans |-> [c \in On |-> [topic |-> ktopic[c], key |-> kkey[c], limit |-> klim[c], nicks |-> kn[c]]],
+   chans |-> [c \in On |-> [topic |-> ktopic[c], key |-> kkey[c], limit |-> klim[c], flags |-> FlagStr(kflags[c]), nicks |-> kn[c]]],
    up |-> phase = "up"]
 
 \* C13: the revealed state never claims more than the truth, and covers exactly the client's channels
 TypeOK ==
   /\ \A c \in On : snick \in NicksOf(c) /\ DOMAIN kn[c] = NicksOf(c) /\ \A n \in NicksOf(c) : kn[c][n] \subseteq mem[c][n]
   /\ uh \subseteq Visible /\ jn \subseteq Visible
+  /\ DOMAIN flags = On /\ DOMAIN kflags = On /\ \A c \in On : kflags[c] \subseteq flags[c]
   /\ \A u, v \in Users : u # v => nick[u] # nick[v]
   /\ snick \notin {nick[u] : u \in Users}
 =============================================================================
